@@ -233,7 +233,7 @@ def enumerate_generator(ctx, rid):
 
 def r4_r5_generation(ctx, fields, setters, pairing, roles):
     ctx.rule("C02.R4", "the half-move reset flag is set exactly for: piece moved is a pawn, or something is captured", floor=2)
-    ctx.rule("C02.R5", "each castling-right-lost flag is set exactly when that right is held and the source (own) / target (opponent) square is the rook's or king's home square of that colour, for both colours", floor=8)
+    ctx.rule("C02.R5", "each castling-right-lost flag is set exactly when that right is held and the source (own) / target (opponent) square is the rook's or king's home square of that colour, for both colours", floor=16)
     prog = ctx.prog
     try:
         f, cfg, paths = enumerate_generator(ctx, "C02.R5")
@@ -243,8 +243,11 @@ def r4_r5_generation(ctx, fields, setters, pairing, roles):
     ctx.extra["make_move_paths"] = len(paths)
     PAWN = prog.const_value("inkayaku_board::board::constants::PAWN")
     NO_PIECE = prog.const_value("inkayaku_board::board::constants::NO_PIECE")
+    ROOK = prog.const_value("inkayaku_board::board::constants::ROOK")
+    KING = prog.const_value("inkayaku_board::board::constants::KING")
     cd = cfg.control_deps()
     reasons = {}   # (setter, colour) -> set of frozenset of (atom, truth)
+    heads = {}     # (setter, colour) -> block of the switch on the castling-right flag that opens the setter's condition
     seen_colours = set()
     for p, pe, colour in paths:
         seen_colours.add(colour)
@@ -270,6 +273,8 @@ def r4_r5_generation(ctx, fields, setters, pairing, roles):
                         d, c = cond_at[a]
                         atoms.append((d, c != ("in", (0,))))
                         is_flag = d[0] == "f" and d[2].endswith("_castle")
+                        if is_flag and c != ("in", (0,)):
+                            heads.setdefault((sname, colour), set()).add(a)
                         if sname != "set_halfmove_reset" and not is_flag and d[0] == "bin" and d[1] == "Eq":
                             work.append(a)
             reasons.setdefault((sname, colour), set()).add(frozenset(atoms))
@@ -329,6 +334,55 @@ def r4_r5_generation(ctx, fields, setters, pairing, roles):
                             got_flags.add((d[1], d[2]))
                     elif truth:
                         others.add(show(d))
+            # the decision must not be skipped: a path that pushes the move without evaluating this setter's
+            # condition must already exclude it (it tested the same square parameter against another square)
+            hs = heads.get((sname, col), set())
+            skipped = []
+            if len(hs) == 1:
+                h = list(hs)[0]
+                for p_, pe_, c_ in paths:
+                    if c_ != col or h in p_:
+                        continue
+                    if not any(t_[0] == "call" and t_[1].endswith("Vec::push") for b_, t_ in pe_.calls):
+                        continue
+                    excl = False
+                    for (d_, cc_, b_, ty_) in pe_.conds:
+                        if cc_ != ("in", (0,)) and d_[0] == "bin" and d_[1] == "Eq" and want_var in (d_[2], d_[3]):
+                            cst_ = d_[3] if d_[2] == want_var else d_[2]
+                            try:
+                                if fold(cst_) not in want_sq:
+                                    excl = True
+                            except Unfoldable:
+                                pass
+                    # a held right implies the rook (and king) stand on their home squares, so a path that has
+                    # established "the captured piece is no rook" (opponent's right) or "the moving piece is neither
+                    # king nor rook" (own right) excludes the loss as well
+                    neg_rook_capture = False
+                    not_king, not_rook = False, False
+                    for (d_, cc_, b_, ty_) in pe_.conds:
+                        truth_ = cc_ != ("in", (0,))
+                        if d_[0] == "bin" and d_[1] in ("Eq", "Ne"):
+                            consts_ = [x for x in (d_[2], d_[3]) if x[0] == "c"]
+                            other_ = [x for x in (d_[2], d_[3]) if x[0] != "c"]
+                            if len(consts_) == 1 and len(other_) == 1:
+                                is_eq_true = (d_[1] == "Eq") == truth_
+                                if other_[0][0] == "call" and other_[0][1].endswith("get_piece_const_by_square_shift") and consts_[0][1] == ROOK and not is_eq_true:
+                                    neg_rook_capture = True
+                                if other_[0] == ("param", 6) and not is_eq_true:
+                                    if consts_[0][1] == KING:
+                                        not_king = True
+                                    if consts_[0][1] == ROOK:
+                                        not_rook = True
+                    if role == "opponent" and neg_rook_capture:
+                        excl = True
+                    if role == "mover" and not_king and not_rook:
+                        excl = True
+                    if not excl:
+                        skipped.append([show(d_) for (d_, cc_, b_, ty_) in pe_.conds if cc_ != ("in", (0,)) and d_[0] == "bin" and d_[1] == "Eq"][:3])
+            ok2 = len(hs) == 1 and not skipped
+            ctx.ob("C02.R5", "%s|%s-to-move|decision-not-skipped" % (sname, col), ok2,
+                   "" if ok2 else "%s to move: a move can be generated without %s's condition being evaluated although that condition may hold (e.g. when %s): the right is then kept wrongly"
+                   % (col, sname, skipped[0] if skipped else "no unique condition head found"), ctx.where(f))
             want_flag = (("f", ("*", ("param", 1)), owner), flag)
             flag_ok = {(fl[0][1] if fl[0][0] == "*" else fl[0], fl[1]) for fl in got_flags} == {want_flag} or got_flags == {(("f", ("*", ("param", 1)), owner), flag)} \
                 or {(B_strip(fl[0]), fl[1]) for fl in got_flags} == {want_flag}
